@@ -33,6 +33,7 @@ MODEL_SRC = '''
 from dataclasses import dataclass
 from typing import Iterable, TypeVar, Generic, Any, Protocol, Self
 import ast as _ast
+import collections.abc as _abc
 from func_adl import register_func_adl_os_collection, func_adl_callback
 from func_adl.type_based_replacement import ObjectStreamInternalMethods
 def _cb_new_node(s, a):
@@ -105,6 +106,8 @@ class Base:
     # the object's own type, whatever subclass it is (typing.Self)
     def me(self) -> Self: ...
     def peers(self) -> Iterable[Self]: ...
+    def groups(self) -> Iterable[Iterable[Self]]: ...
+    def abc_peers(self) -> _abc.Iterable[Self]: ...
 class Trk(Base):
     def pt(self) -> float: ...
     def charge(self) -> int: ...
@@ -311,10 +314,11 @@ def _self_is(ann, recv):
     if ann is typing.Self:
         return recv
     args = typing.get_args(ann)
-    if args and any(a is typing.Self for a in args):
-        origin = typing.get_origin(ann)
-        new = tuple(recv if a is typing.Self else a for a in args)
-        return typing.Iterable[new[0]] if origin is collections.abc.Iterable else origin[new]
+    if args:
+        new = tuple(_self_is(a, recv) for a in args)
+        if any(n is not a for n, a in zip(new, args)):
+            origin = typing.get_origin(ann)
+            return typing.Iterable[new[0]] if origin is collections.abc.Iterable else origin[new]
     return ann
 
 
